@@ -146,6 +146,7 @@ type Replay struct {
 	Violation      Violation       `json:"violation"`
 	TraceHash      uint64          `json:"trace_hash"`
 	Minimised      bool            `json:"minimised"`
+	Rerun          bool            `json:"rerun,omitempty"` // no decision log: re-execute from the recorded seed (used when the run crashed the process)
 	OriginalSteps  int             `json:"original_steps"`
 	Steps          int             `json:"steps"`
 	Trace          []string        `json:"trace,omitempty"`
@@ -235,6 +236,7 @@ type WorkerOpts struct {
 	MaxViol    int
 	HashFile   string
 	HashLog    string
+	Progress   string // file receiving the index of the run in flight (8 bytes), for crash attribution
 	NoMinimise bool
 	Known      map[string]bool // signatures of open known findings: recorded once, never minimised, never counted towards MaxViol
 	RaceCheck  func() int      // returns number of race reports so far (race build)
@@ -271,7 +273,19 @@ func RunWorker(h Harness, o WorkerOpts) (res WorkerResult) {
 		hl, _ = os.Create(o.HashLog)
 		defer hl.Close()
 	}
+	var prog *os.File
+	if o.Progress != "" {
+		prog, _ = os.Create(o.Progress)
+		defer prog.Close()
+	}
+	var pb [8]byte
 	for i := o.From; i < o.To; i++ {
+		if prog != nil {
+			for k := 0; k < 8; k++ {
+				pb[k] = byte(uint64(i) >> (8 * k))
+			}
+			prog.WriteAt(pb[:], 0)
+		}
 		if o.Budget > 0 && i&63 == 0 && time.Since(start) > o.Budget {
 			res.To = i
 			break
@@ -375,6 +389,24 @@ func writeHashes(path string, all, nt map[uint64]bool) {
 	f.Write(buf)
 }
 
+// DumpRun writes the replay file of run i without executing it: the scenario
+// and configuration its seed generates, to be re-executed from that seed.
+func DumpRun(h Harness, seed, run int64, tier, path string) {
+	r := simrt.NewRand(RunSeed(seed, h.ID(), run))
+	sc := h.Generate(r, tier)
+	cfg := DrawConfig(r, h.Faults())
+	b, err := json.Marshal(sc)
+	if err != nil {
+		panic(&Trouble{err.Error()})
+	}
+	rp := &Replay{Property: h.ID(), Seed: seed, Run: run, HarnessVersion: HarnessVersion, Race: simrt.RaceEnabled, Scenario: b, Config: toJSONCfg(cfg),
+		Rerun: true, Violation: Violation{Signature: "crash", Detail: "the process died while executing this run"}, Describe: h.Describe(sc)}
+	nb, _ := json.MarshalIndent(rp, "", " ")
+	if err := os.WriteFile(path, nb, 0o644); err != nil {
+		panic(&Trouble{err.Error()})
+	}
+}
+
 // MakeReplay builds a replay record from a failing run.
 func MakeReplay(h Harness, seed, run int64, sc any, cfg simrt.Config, out *simrt.Outcome, v *Violation, minimised bool) *Replay {
 	b, err := json.Marshal(sc)
@@ -401,6 +433,10 @@ func WriteReplay(dir string, rp *Replay) string {
 // ReplayConfig returns the configuration that re-executes a replay file.
 func ReplayConfig(rp *Replay, trace bool) simrt.Config {
 	cfg := fromJSONCfg(rp.Config)
+	cfg.Trace = trace
+	if rp.Rerun {
+		return cfg
+	}
 	cfg.Replay = true
 	cfg.ReplaySched = rp.Sched
 	cfg.ReplayDraws = rp.Draws
